@@ -104,7 +104,7 @@ def run(c):
     for op, entry in (("query.roundtrip", "query"), ("form.roundtrip", "form body")):
         cases = [core.Case("%s%d" % (op[0], i), op, map_fields(m)) for i, (m, f) in enumerate(maps)]
         for lane in ("rel", "chk"):
-            obs = core.run_cases(cases, lane=lane)
+            obs = core.run_cases(cases, lane=lane, poison="form")
             for i, cs in enumerate(cases):
                 m, feats = maps[i]
                 o = obs.get(cs.id)
